@@ -350,6 +350,9 @@ class ProcessRunner(Runner, ABC):
                 storage=storage
             )
         finally:
+            # Deliver captured output before the result is returned.
+            sys.stdout.flush()
+            sys.stderr.flush()
             process_event_queue.put(ProcessEndEvent(
                 task_name=task_name,
             ))
